@@ -14,7 +14,7 @@ if [ ! -x "$OUT/simbuild" ]; then
   go1.26.8 build -o "$OUT/simbuild" ./cmd/simbuild || exit 2
 fi
 if [ ! -f "$OUT/overlay.json" ]; then
-  "$OUT/simbuild" -repo /repo -verif $VERIF -out "$OUT" || exit 2
+  "$OUT/simbuild" -repo /repo ${VERIF_SRC:+-src "$VERIF_SRC"} -verif $VERIF -out "$OUT" || exit 2
 fi
 if [ -n "$RACE" ]; then
   go1.26.8 test -c -race -tags verif -overlay "$OUT/overlay.json" -vet=off -o "$OUT/harness.race.test" ./harness || exit 2
